@@ -52,6 +52,13 @@ func (c *Ctx) specEnv(fr *Frame, cur, old *State, hdr *ssa.BasicBlock) *SpecEnv 
 			env.vars[fmt.Sprintf("param%d", i)] = fr.params[i] // positional name (robust to renaming)
 		}
 	}
+	if fr.top {
+		for k, v := range c.captured {
+			if _, taken := env.vars[k]; !taken {
+				env.vars[k] = v
+			}
+		}
+	}
 	for old, i := range c.eng.paramAliases(fr.fn) {
 		if _, taken := env.vars[old]; !taken && i < len(fr.params) {
 			env.vars[old] = fr.params[i] // the name this parameter had in the reference tree
